@@ -178,6 +178,7 @@ class RefBuilder:
 
     def declare_read(self, p, cmp=None):
         self.read(p, cmp)
+        return None
 
     def read_binary(self, p, cmp=None):
         return _Handle(self.read(p, cmp))
